@@ -26,6 +26,10 @@ pub(crate) struct EntryInfo<K> {
     last_accessed: AtomicInstant,
     last_modified: AtomicInstant,
     policy_weight: AtomicU32,
+    /// The weight that the eviction counters currently hold for this entry. It
+    /// follows `policy_weight` (the weight of the latest value) when a write op of
+    /// the entry is applied, and it is what is given back when the entry is removed.
+    accounted_weight: AtomicU32,
     nodes: Mutex<DeqNodes<K>>,
 }
 
@@ -38,6 +42,7 @@ impl<K> EntryInfo<K> {
             last_accessed: AtomicInstant::new(timestamp),
             last_modified: AtomicInstant::new(timestamp),
             policy_weight: AtomicU32::new(policy_weight),
+            accounted_weight: AtomicU32::new(0),
             nodes: Mutex::new(DeqNodes {
                 access_order_q_node: None,
                 write_order_q_node: None,
@@ -73,6 +78,16 @@ impl<K> EntryInfo<K> {
     #[inline]
     pub(crate) fn set_policy_weight(&self, size: u32) {
         self.policy_weight.store(size, Ordering::Release);
+    }
+
+    #[inline]
+    pub(crate) fn accounted_weight(&self) -> u32 {
+        self.accounted_weight.load(Ordering::Acquire)
+    }
+
+    #[inline]
+    pub(crate) fn set_accounted_weight(&self, size: u32) {
+        self.accounted_weight.store(size, Ordering::Release);
     }
 
     #[inline]
